@@ -238,9 +238,24 @@ func checkC11(c c11Case, r *vcore.Rec) *vcore.Failure {
 			entries = append(entries, e)
 		}
 	}
+	// a client that keeps asking for the next page until one comes back empty: the pages behind the last one show nothing (again)
+	for _, pg := range []int{pages, pages + 1, c.Page} {
+		if pg < pages {
+			continue
+		}
+		code, body := x.HTTP("GET", fmt.Sprintf("/v1/ip?size=%d&page=%d&sort=%s", size, pg, sortParam), nil)
+		var lr api.ListIPResp
+		if code != 200 || json.Unmarshal([]byte(body), &lr) != nil {
+			return vcore.Failf("c11:list_status", "page %d -> %d", pg, code)
+		}
+		for _, e := range lr.Content {
+			seen[e.IP]++
+		}
+		r.Class("paged_past_the_end")
+	}
 	for _, ip := range ips {
 		if seen[ip] != 1 {
-			return vcore.Failf("c11:paging", "walking %d pages of size %d shows IP %s %d times", pages, size, ip, seen[ip])
+			return vcore.Failf("c11:paging", "walking %d pages of size %d and on until an empty page shows IP %s %d times", pages, size, ip, seen[ip])
 		}
 	}
 	if len(seen) != total {
